@@ -24,37 +24,84 @@ type retainFilter struct {
 	detail   string
 }
 
-// retainFilters describes the append-back sites of the expiry function: which comparison guards them.
+// retainFilters describes how the expiry routine (f and its private helpers) rebuilds the entry of the token table:
+// for every store of a slice into SecureChannel.instances, each append that contributes to the stored slice (directly
+// `table[k] = append(table[k], e)`, or through a local `remaining = append(remaining, e)` that is stored afterwards)
+// is reported with the comparison that guards it.
 func retainFilters(c *core.Ctx, f *ssa.Function, instances, tokField *types.Var) []retainFilter {
 	var out []retainFilter
-	inst := f.Params[len(f.Params)-1]
-	for _, s := range ssax.ContainerSites(f, instances) {
-		if s.Kind != ssax.MapStore || !isAppendOf(s.Val) {
+	ciT := c.P.Named("uasc", "channelInstance")
+	for _, g := range withHelpers(f) {
+		// the expiring instance: g's *channelInstance parameter
+		var inst ssa.Value
+		for _, p := range g.Params {
+			if derefNamed(p.Type()) == ciT && ciT != nil && p != g.Params[0] || (derefNamed(p.Type()) == ciT && g.Signature.Recv() == nil) {
+				inst = p
+			}
+		}
+		if inst == nil {
 			continue
 		}
-		vals := appendedValues(s.Val)
-		r := retainFilter{at: s.Instr, detail: "append-back is not guarded by an inequality of the entry and the expiring instance (identity or securityTokenID)"}
-		for _, fact := range ssax.FactsAt(s.Instr) {
-			if fact.Op != token.NEQ {
+		seenAppend := map[*ssa.Call]bool{}
+		for _, s := range ssax.ContainerSites(g, instances) {
+			if s.Kind != ssax.MapStore {
 				continue
 			}
-			if (isVal(fact.X, vals) && ssax.Strip(fact.Y) == inst) || (isVal(fact.Y, vals) && ssax.Strip(fact.X) == inst) {
-				r.ok, r.identity = true, true
-				r.detail = "retained entries satisfy entry != expiring instance (identity): exactly the expired instance is dropped"
-			}
-			lx, ly := loadedField(fact.X), loadedField(fact.Y)
-			if lx.f == tokField && ly.f == tokField {
-				// one side the loop element being appended, the other the parameter
-				a, b := lx.base, ly.base
-				if (isVal(a, vals) && ssax.Strip(b) == inst) || (isVal(b, vals) && ssax.Strip(a) == inst) {
-					r.ok = true
-					if !r.identity {
-						r.detail = "retained entries satisfy entry.securityTokenID != expiring.securityTokenID"
+			var appends []*ssa.Call
+			var walk func(v ssa.Value, d int)
+			seen := map[ssa.Value]bool{}
+			walk = func(v ssa.Value, d int) {
+				v = ssax.Strip(v)
+				if v == nil || seen[v] || d > 8 {
+					return
+				}
+				seen[v] = true
+				switch x := v.(type) {
+				case *ssa.Call:
+					if ssax.IsBuiltin(x, "append") {
+						appends = append(appends, x)
+						walk(x.Call.Args[0], d+1)
+					}
+				case *ssa.Phi:
+					for _, e := range x.Edges {
+						walk(e, d+1)
 					}
 				}
 			}
+			walk(s.Val, 0)
+			for _, ap := range appends {
+				if seenAppend[ap] {
+					continue
+				}
+				seenAppend[ap] = true
+				vals := appendedValues(ap)
+				if len(vals) == 0 {
+					continue
+				}
+				r := retainFilter{at: ap, detail: "append-back is not guarded by an inequality of the entry and the expiring instance (identity or securityTokenID)"}
+				for _, fact := range ssax.FactsAt(ap) {
+					if fact.Op != token.NEQ {
+						continue
+					}
+					if (isVal(fact.X, vals) && ssax.Strip(fact.Y) == inst) || (isVal(fact.Y, vals) && ssax.Strip(fact.X) == inst) {
+						r.ok, r.identity = true, true
+						r.detail = "retained entries satisfy entry != expiring instance (identity): exactly the expired instance is dropped"
+					}
+					lx, ly := loadedField(fact.X), loadedField(fact.Y)
+					if lx.f == tokField && ly.f == tokField {
+						// one side the loop element being appended, the other the parameter
+						a, b := lx.base, ly.base
+						if (isVal(a, vals) && ssax.Strip(b) == inst) || (isVal(b, vals) && ssax.Strip(a) == inst) {
+							r.ok = true
+							if !r.identity {
+								r.detail = "retained entries satisfy entry.securityTokenID != expiring.securityTokenID"
+							}
+						}
+					}
+				}
+				out = append(out, r)
+			}
 		}
-		out = append(out, r)
 	}
 	return out
 }
@@ -100,6 +147,10 @@ func c17(c *core.Ctx) {
 	cg := c.P.CallGraph()
 	fns := libFns(c, "uasc")
 	c.Count("functions", len(fns))
+	expiryFns := map[*ssa.Function]bool{}
+	for _, g := range withHelpers(schedExp) {
+		expiryFns[g] = true // the expiry routine re-stores retained entries; it installs nothing
+	}
 	var installers []ssax.MapSite
 	for _, f := range fns {
 		for _, s := range ssax.ContainerSites(f, instances) {
@@ -121,7 +172,7 @@ func c17(c *core.Ctx) {
 				} else {
 					c.Ob("C17.key", key, pos(c, s.Instr), false, "key is not a channel id: "+strings.Join(uniq(bad), ", ")+" — entries are inserted under the channel id, so this site never addresses them")
 				}
-				if s.Kind == ssax.MapStore && isAppendOf(s.Val) && f != schedExp {
+				if s.Kind == ssax.MapStore && isAppendOf(s.Val) && !expiryFns[f] {
 					installers = append(installers, s)
 				}
 			}
@@ -182,9 +233,11 @@ func c17(c *core.Ctx) {
 		if len(fl) == 0 {
 			// the table must at least be rewritten (a removal) after the timer
 			rew := false
-			for _, s := range ssax.ContainerSites(f, instances) {
-				if s.Kind == ssax.MapStore || s.Kind == ssax.MapDelete {
-					rew = true
+			for _, g := range withHelpers(f) {
+				for _, s := range ssax.ContainerSites(g, instances) {
+					if s.Kind == ssax.MapStore || s.Kind == ssax.MapDelete {
+						rew = true
+					}
 				}
 			}
 			c.Ob("C17.remove", fname(f)+"·retain-filter", c.P.Pos(f.Pos()), rew, "no append-back loop; table rewritten/deleted: "+boolStr(rew))
@@ -294,6 +347,11 @@ func loadedField(v ssa.Value) loaded {
 		}
 	case *ssa.Field:
 		return loaded{ssax.FieldOf(x.X.Type(), x.Field), x.X}
+	case *ssax.Synth:
+		// a fact operand translated from a helper: field known, no base value in this function
+		if x.Field != nil {
+			return loaded{x.Field, x}
+		}
 	}
 	return loaded{}
 }
